@@ -216,7 +216,8 @@ CHECKS = {
                  "by a schema-level oracle (generated schema + elementary edit + reverse edit) on the real diff_schema. "
                  "diff_schema itself is modelled in Lean (Diff.lean) with theorems diff_refl (all schemas with unique names), "
                  "removed/retyped elements reported as BREAKING, nobreaking_args_permissive (semantic, full), "
-                 "nobreaking_fields_strict_partial (list-free types; G1), min_severity_filters, and the schema-shape half of 'operations valid on the old schema stay "
+                 "nobreaking_fields_strict_partial (list-free types; G1), min_severity_filters, diff_perm (permuting the type and directive definitions of "
+                 "either schema permutes the report: same multiset of changes at every filter; no_breaking_perm), and the schema-shape half of 'operations valid on the old schema stay "
                  "valid': nobreaking_types_kept / kinds_kept / fields_kept / arguments_kept / no_new_required_argument / enum_values_kept / union_members_kept / "
                  "input_fields (kept, at least as permissive, no new required one); the model is compared with the real "
                  "diff_schema on every generated schema pair (multiset of class, severity, identifying attributes)."),
